@@ -20,6 +20,8 @@ def content_ops(r, vg, P, slot, n, tps=1000):
             ops.append({'o': 'add', 'b': slot, 't': t, 'v': vg.value(t)})
         elif x < 0.8:
             ops.append({'o': 'rec', 'b': slot, 'k': 'qr', 'r': gen.gen_qr(r, P, tps, 10 ** 9)})
+            if r.random() < 0.35:
+                ops[-1]['st'] = gen.gen_stats(r)
         elif x < 0.9:
             ops.append({'o': 'rec', 'b': slot, 'k': 'aec', 'r': gen.gen_aec(r, P)})
         else:
